@@ -8,6 +8,12 @@ pub mod c05;
 pub mod c06;
 pub mod c07;
 pub mod c11;
+pub mod c12;
+pub mod c13;
+pub mod c14;
+pub mod c15;
+pub mod c19;
+pub mod c20;
 
 pub fn run(ctx: &mut Ctx) -> bool {
     match ctx.prop.as_str() {
@@ -17,6 +23,12 @@ pub fn run(ctx: &mut Ctx) -> bool {
         "C06" => c06::run(ctx),
         "C07" => c07::run(ctx),
         "C11" => c11::run(ctx),
+        "C12" => c12::run(ctx),
+        "C13" => c13::run(ctx),
+        "C14" => c14::run(ctx),
+        "C15" => c15::run(ctx),
+        "C19" => c19::run(ctx),
+        "C20" => c20::run(ctx),
         _ => return false,
     }
     true
